@@ -3,7 +3,9 @@ package main
 import (
 	"context"
 	"encoding/json"
+	"errors"
 	"fmt"
+	"net/http"
 	"net/http/httptest"
 	"net/url"
 	"sort"
@@ -13,6 +15,7 @@ import (
 
 	"golang.org/x/net/html"
 
+	"github.com/hashicorp/go-retryablehttp"
 	"github.com/ory/fosite"
 	"github.com/ory/fosite/storage"
 )
@@ -551,10 +554,50 @@ func c20RunFault(c c20FaultCase, res *WRes) {
 	if dec, err := url.QueryUnescape(o.Location); err == nil {
 		text += " " + dec
 	}
+	if o.Err == "error" {
+		// ErrorToRFC6749Error's fallback for an error that is not an OAuth 2.0 error: the handler passed the raw storage
+		// error through instead of answering server_error
+		cc := c
+		cc.Name = hit
+		res.violate(Violation{Property: "C20", Fingerprint: fmt.Sprintf("C20/storage-failure-answered-with-non-rfc-error-code/flow=%s/%s", c.Flow, hit), What: fmt.Sprintf("flow %s: a storage failure in %s is answered with the error code \"error\" (HTTP %d), which is not an RFC 6749 error code", c.Flow, hit, o.Status), Engine: "c20fault", Case: cc, Expected: "server_error (or another RFC error code)", Observed: strings.TrimSpace(o.Body)})
+	}
 	if strings.Contains(text, "STORAGEMARKER") || strings.Contains(text, "10.42.7.13") {
 		cc := c
 		cc.Name = hit
 		res.violate(Violation{Property: "C20", Fingerprint: fmt.Sprintf("C20/storage-error-text-exposed/flow=%s/%s", c.Flow, hit), What: fmt.Sprintf("flow %s: the text of a storage error raised by %s appears in the response although debug exposure is disabled", c.Flow, hit), Engine: "c20fault", Case: cc, Expected: "no internal detail", Observed: strings.TrimSpace(o.Body + " " + o.Location)})
+	}
+}
+
+// c20FetchLeak: the HTTP fetch of a registered request_uri fails in the transport; the text of that error is internal
+// detail and must not reach the client unless debug exposure is on.
+type failRT struct{ err error }
+
+func (f failRT) RoundTrip(*http.Request) (*http.Response, error) { return nil, f.err }
+
+func c20FetchLeak(legacy bool, res *WRes) {
+	w := NewWorld(Profile{LegacyErrors: legacy})
+	base := w.AddClient("V", "secret-V", false)
+	base.RedirectURIs = []string{"https://v.example/cb"}
+	w.Mem.Clients["V"] = &fosite.DefaultOpenIDConnectClient{DefaultClient: base, RequestObjectSigningAlgorithm: "RS256", RequestURIs: []string{"https://v.example/ro.jwt"},
+		JSONWebKeys: jwks(pubJWK(rsaKey("rsa1"), "rk", "RS256"))}
+	hc := retryablehttp.NewClient()
+	hc.RetryMax = 0
+	hc.Logger = nil
+	hc.HTTPClient.Transport = failRT{err: errors.New("dial tcp 10.42.7.13:8443: connect: connection refused STORAGEMARKER")}
+	w.Cfg.HTTPClient = hc
+	o := w.Authorize(url.Values{"client_id": {"V"}, "response_type": {"code"}, "scope": {"openid a"}, "state": {"state-12345678"}, "nonce": {"nonce-12345678"}, "redirect_uri": {"https://v.example/cb"}, "request_uri": {"https://v.example/ro.jwt"}}, AuthzOpts{})
+	res.Trans++
+	res.Evals++
+	res.distinct(fmt.Sprintf("request-uri-fetch|%v", legacy))
+	text := o.Body + " " + o.Location + " " + fmt.Sprint(o.FormPost)
+	if dec, err := url.QueryUnescape(o.Location); err == nil {
+		text += " " + dec
+	}
+	if o.Param("code") != "" {
+		res.note("sanity:request-uri-fetch-failure-ignored")
+	}
+	if strings.Contains(text, "STORAGEMARKER") || strings.Contains(text, "10.42.7.13") {
+		res.violate(Violation{Property: "C20", Fingerprint: "C20/request-uri-fetch-error-text-exposed", What: "the transport error of a failed request_uri fetch appears in the authorization error response although debug exposure is disabled", Engine: "c20fetch", Case: map[string]bool{"legacy_format": legacy}, Expected: "no internal detail", Observed: strings.TrimSpace(o.Body + " " + o.Location)})
 	}
 }
 
@@ -583,6 +626,9 @@ func init() {
 						res.Evals++
 					}
 				}
+			}
+			for _, leg := range []bool{false, true} {
+				c20FetchLeak(leg, res)
 			}
 			res.sample(map[string]any{"part": "storage error text", "flows": c18Flows})
 			return res, nil
@@ -635,6 +681,17 @@ func init() {
 		c20RunErr(c, res)
 		return res.Viol, nil
 	}
+	replayFns["c20fetch"] = func(raw json.RawMessage) ([]Violation, error) {
+		var c struct {
+			Legacy bool `json:"legacy_format"`
+		}
+		if err := json.Unmarshal(raw, &c); err != nil {
+			return nil, err
+		}
+		res := &WRes{}
+		c20FetchLeak(c.Legacy, res)
+		return res.Viol, nil
+	}
 	replayFns["c20fault"] = func(raw json.RawMessage) ([]Violation, error) {
 		var c c20FaultCase
 		if err := json.Unmarshal(raw, &c); err != nil {
@@ -672,7 +729,7 @@ func init() {
 		for n := range c20Errors {
 			names = append(names, n)
 		}
-		r.Bounds = map[string]any{"errors": len(names), "fragments": len(c20Frags), "fragment_depth": depth, "writers": c20Writers, "formats": []string{"new", "legacy"}, "debug_exposure": []bool{false, true}, "storage_flows": c20Flows, "storage_strategies": []string{"hmac", "jwt"}, "storage_error_text": "a generic storage error carrying a recognisable text is injected at every storage call of every C18 flow, both error formats, debug exposure off"}
+		r.Bounds = map[string]any{"errors": len(names), "fragments": len(c20Frags), "fragment_depth": depth, "writers": c20Writers, "formats": []string{"new", "legacy"}, "debug_exposure": []bool{false, true}, "storage_flows": c20Flows, "storage_strategies": []string{"hmac", "jwt"}, "storage_error_text": "a generic storage error carrying a recognisable text is injected at every storage call of every C18 flow, both error formats, debug exposure off: the text must not appear and the error code must be an RFC code; likewise the transport error of a failed request_uri fetch"}
 		r.Rule = "errors: every exported RFC error (and a plain Go error) x hint/debug text built from <= depth nasty fragments x format x debug exposure x writer, the bytes written are re-parsed (JSON / URL / HTML tokenizer); storage: every storage call of every flow is scanned (keys and stored request forms) for secrets that are usable at the moment of the call"
 		r.Assumptions = []string{"the user password necessarily reaches the Authenticate storage call", "a just-consumed credential passed as a key is not a usable secret", "the revocation and introspection writers choose their own error; for them only self-consistency of code and status is checked"}
 		res := r.Pool.Do("c20", jobs, r.Deadline)
